@@ -14,14 +14,30 @@ func pointReader(r io.Reader, byteOrder binary.ByteOrder) (geom.Geom, error) {
 	return point, nil
 }
 
+// pointsChunk is the largest number of points read (and allocated) at once.
+const pointsChunk = 256
+
 func readPoints(r io.Reader, byteOrder binary.ByteOrder) ([]geom.Point, error) {
 	var numPoints uint32
 	if err := binary.Read(r, byteOrder, &numPoints); err != nil {
 		return nil, err
 	}
-	points := make([]geom.Point, numPoints)
-	if err := binary.Read(r, byteOrder, &points); err != nil {
-		return nil, err
+	// numPoints comes from untrusted input, so the points are read in
+	// bounded chunks: memory use follows the data actually present.
+	n := numPoints
+	if n > pointsChunk {
+		n = pointsChunk
+	}
+	points := make([]geom.Point, 0, n)
+	for remaining := numPoints; remaining > 0; remaining -= n {
+		if n > remaining {
+			n = remaining
+		}
+		chunk := make([]geom.Point, n)
+		if err := binary.Read(r, byteOrder, &chunk); err != nil {
+			return nil, err
+		}
+		points = append(points, chunk...)
 	}
 	return points, nil
 }
